@@ -1336,6 +1336,9 @@ where
                 0,
             );
             if sc >= 0
+                // the resize in progress must be the one of _this_ table (as in the Java code):
+                // otherwise we would join a later resize with the tables of an earlier one
+                || (sc as usize >> RESIZE_STAMP_SHIFT) != (rs as usize >> RESIZE_STAMP_SHIFT)
                 || sc == rs + MAX_RESIZERS
                 || sc == rs + 1
                 || self.transfer_index.load(Ordering::SeqCst) <= 0
